@@ -10,12 +10,16 @@ CFG = dict(
         "Inst.gen_emb_ops_locked: the embedding-class arms of put/get/delete/exists hold the key's lock stripe",
         "Inst.gen_scan_single_step: MetadataSlab::scan with a non-empty prefix copies keys and values under one acquisition of the shard lock",
         "Inst.gen_durable_ids_in_log_order: put_durable allocates entity ids under the WAL guard",
+        "Inst.gen_index_entries_not_early: exists (embedding keys) and scan report an entity-index entry only when get would find the key",
+        "Inst.gen_prefix_bound_on_chars: MetadataSlab::next_prefix increments the last character of the prefix",
+        "Inst.gen_bloom_fed_first: TensorStore::put / put_durable add the key to the Bloom filter before the router write",
+        "Inst.gen_replay_ids_like_live: WAL replay allocates entity ids for the same records as put_durable",
         "Inst.gen_bloom_add_atomic: BloomFilter::add sets each bit with one atomic fetch_or",
         "Inst.gen_cache_get_key_checked: CacheRing::get compares the slot entry's key before returning its value",
     ],
     crate="nvh_c11", release=True,
     header=H + "From NV.C11 Require Import Model Run.\nOpen Scope N_scope.",
-    kinds={"lin": ("lin_case", "check_lin"), "order": ("order_case", "check_order")},
+    kinds={"lin": ("lin_case", "check_lin"), "order": ("order_case", "check_order"), "pscan": ("pscan_case", "check_pscan")},
     known_classes={0: "emb-three-structures", 1: "delete-two-steps"},
     shard=40,
     rule="multi-thread histories (2-4 threads, contended keys of every key class, with and without the durable log) recorded on the real TensorStore with a global invocation/response counter and decided by a Wing-Gong search against the sequential specification (witnesses re-checked, failures re-searched, inside Coq); deterministic replay of the durable-order race through the guarded hook",
